@@ -79,7 +79,7 @@ class BuiltinMixin:
         fx["FixedInt"] = Builtin("FixedInt", fixedint_factory)
         NM["fixedint"] = ModuleV("fixedint", fx)
         # typing-like modules: everything is a dummy
-        for n in ("typing", "abc", "__future__", "collections.abc"):
+        for n in ("typing", "abc", "__future__", "collections.abc", "pyparsing", "re"):
             m = ModuleV(n, {"TYPE_CHECKING": False})
             m.lenient = True
             NM[n] = m
